@@ -371,6 +371,13 @@ def run_check(pid, tier, seed_value, replay=None):
             print(errors[0]["error"])
             return 2
 
+        # Population-level clauses decided on the merged records (e.g. C06's panel statistics)
+        if hasattr(mod, "finalize"):
+            for fv, fcase in mod.finalize(agg, tier, seed_value):
+                sg = signature(fv)
+                agg["found"].setdefault(sg, {"violation": fv, "case": jsonable(fcase), "count": 0, "size": 0, "part": "finalize"})
+                agg["found"][sg]["count"] += 1
+
         # Triage: known vs new signatures
         known_hits = {}
         new = {}
@@ -425,6 +432,7 @@ def run_check(pid, tier, seed_value, replay=None):
             "inconclusive_cases": int(agg["inconclusive"]),
             "regression_cases_replayed": len(rfiles),
             "notes": agg["notes"][:20],
+            "summary": agg.get("summary", {}),
         },
         "assumptions": list(mod.ASSUMPTIONS),
         "wall_s": round(wall, 2),
